@@ -8,7 +8,7 @@ import jobs as J
 prop, name = sys.argv[1], sys.argv[2]
 limit = float(sys.argv[3]) if len(sys.argv) > 3 else 60
 job = next(j for t in ('quick', 'thorough') for j in J.JOBS[prop][t] if name in j.name)
-ll = build.build_module(job.harness, job.defs, job.libs, job.exclude)
+ll = build.build_module(job.harness, job.defs, job.libs, job.exclude, libdefs=job.libdefs)
 def onalarm(sig, frm):
     print('--- timeout; python stack:'); traceback.print_stack(frm, limit=12)
     M = irsym._G.get('M')
